@@ -239,28 +239,28 @@ def rem (a b : SN) : Except UErr SN :=
   | .ok c => (liftD (moduloD a.num c)).map fun r => ⟨r, resultUnit a.unit b.unit⟩
   | .error e => .error e
 
-/-- value/mod.rs:341 `Value::cmp` on two numbers: IEEE order after converting the right operand -/
+/-- value/mod.rs:341 `Value::cmp` on two numbers: the right operand is converted, numbers `==` within
+    tolerance are `Equal`, otherwise IEEE order -/
 def cmpSN (a b : SN) : Except UErr (Option Ordering) :=
   if !comparable a.unit b.unit then .error .incompatible else
-  if a.unit = b.unit ∨ a.unit = .none ∨ b.unit = .none then .ok (cmpD true a.num b.num)
+  if a.unit = b.unit ∨ a.unit = .none ∨ b.unit = .none then .ok (cmpD false a.num b.num)
   else match convert b.num b.unit a.unit with
-    | .ok c => .ok (cmpD true a.num c)
+    | .ok c => .ok (cmpD false a.num c)
     | .error e => .error e
 
 def U.canonical (u : U) : Option U := u.kind.canonical.map fun k => .one (.known k)
 
-/-- sass_number.rs:245 `PartialEq for SassNumber` -/
+/-- sass_number.rs:245 `PartialEq for SassNumber`: both sides are always converted into the canonical
+    unit of the kind when there is one -/
 def eqSN (a b : SN) : Except UErr Bool :=
   if !comparable a.unit b.unit then .ok false else
   if (b.unit = .none ∨ a.unit = .none) ∧ a.unit ≠ b.unit then .ok false else
   match a.unit.canonical with
   | some c =>
-    if a.unit ≠ b.unit then
-      match convert a.num a.unit c, convert b.num b.unit c with
-      | .ok x, .ok y => .ok (eqD x y)
-      | .error e, _ => .error e
-      | _, .error e => .error e
-    else .ok (eqD a.num b.num)
+    match convert a.num a.unit c, convert b.num b.unit c with
+    | .ok x, .ok y => .ok (eqD x y)
+    | .error e, _ => .error e
+    | _, .error e => .error e
   | none =>
     match convert b.num b.unit a.unit with
     | .ok y => .ok (eqD a.num y)
